@@ -42,7 +42,7 @@ func runC12(c *Ctx) {
 		switch calleeName(&cl.Call) {
 		case "(*encoding/json.Decoder).Decode":
 			decode = cl
-			if mi, ok := cl.Call.Args[1].(*ssa.MakeInterface); ok {
+			if mi, ok := argsOf(cl)[1].(*ssa.MakeInterface); ok {
 				report, _ = mi.X.(*ssa.Alloc)
 			}
 		case "godev/cmd/telemetrygodev.validate":
@@ -56,7 +56,7 @@ func runC12(c *Ctx) {
 		return
 	}
 	// decoder reads r.Body
-	dd := describe(decode.Call.Args[0])
+	dd := describe(argsOf(decode)[0])
 	r.Check("C12.write-gate", "handleUpload/decoder reads the request body", gd.Pos(decode.Pos()), dd == "encoding/json.NewDecoder(param:r.Body)", "got "+dd)
 
 	// storage writes
@@ -71,11 +71,11 @@ func runC12(c *Ctx) {
 		isPost := hasFact(facts, strEq(func(v ssa.Value) bool { _, f, ok := fieldLoad(v); return ok && f == "Method" }, "POST", true))
 		r.Check("C12.write-gate", "handleUpload/"+n[strings.LastIndex(n, ".")+1:]+" only for POST", gd.Pos(cs.Pos()), isPost, "storage is touched only when r.Method == \"POST\"")
 		r.Check("C12.write-gate", "handleUpload/"+n[strings.LastIndex(n, ".")+1:]+" only after a successful decode", gd.Pos(cs.Pos()), hasFact(facts, errNilOf(decode)), "Decode must have returned nil")
-		okVal := validateCall != nil && hasFact(facts, errNilOf(validateCall)) && validateCall.Call.Args[0] == ssa.Value(report)
+		okVal := validateCall != nil && hasFact(facts, errNilOf(validateCall)) && argsOf(validateCall)[0] == ssa.Value(report)
 		r.Check("C12.write-gate", "handleUpload/"+n[strings.LastIndex(n, ".")+1:]+" only after validate(report) == nil", gd.Pos(cs.Pos()), okVal, "validate must have accepted this very report")
 		// whole body
 		okWhole := false
-		if tokenCall != nil && tokenCall.Call.Args[0] == decode.Call.Args[0] && precedes(decode, tokenCall) {
+		if tokenCall != nil && argsOf(tokenCall)[0] == argsOf(decode)[0] && precedes(decode, tokenCall) {
 			for _, f := range facts {
 				b, ok := f.Cond.(*ssa.BinOp)
 				if !ok {
@@ -95,7 +95,7 @@ func runC12(c *Ctx) {
 		// alternative accepted form: json.Unmarshal(io.ReadAll(r.Body))
 		if !okWhole {
 			for _, u := range callsIn(h, "encoding/json.Unmarshal") {
-				if strings.HasPrefix(describe(u.Common().Args[0]), "io.ReadAll(param:r.Body)") && hasFact(facts, errNilOf(u.(*ssa.Call))) {
+				if strings.HasPrefix(describe(argsOf(u)[0]), "io.ReadAll(param:r.Body)") && hasFact(facts, errNilOf(u.(*ssa.Call))) {
 					okWhole = true
 				}
 			}
@@ -106,10 +106,10 @@ func runC12(c *Ctx) {
 	r.Check("C12.write-gate", "handleUpload/storage write sites", gd.Pos(h.Pos()), nW >= 2, fmt.Sprintf("%d storage calls", nW))
 	// the encoded value is the validated report
 	for _, cs := range callsIn(h, "(*encoding/json.Encoder).Encode") {
-		d := describe(cs.Common().Args[1])
+		d := describe(argsOf(cs)[1])
 		r.Check("C12.write-gate", "handleUpload/stores the validated report", gd.Pos(cs.Pos()), d == "*alloc:"+allocName(report) || d == "alloc:"+allocName(report), "the value encoded into storage must be the report that was validated; got "+d)
 		// encoder writes into the storage writer
-		ed := describe(cs.Common().Args[0])
+		ed := describe(argsOf(cs)[0])
 		r.Check("C12.write-gate", "handleUpload/encoder writes to the storage object", gd.Pos(cs.Pos()), strings.Contains(ed, ".NewWriter(") && strings.Contains(ed, ".Object("), "got "+ed)
 	}
 
@@ -119,7 +119,7 @@ func runC12(c *Ctx) {
 		if !strings.HasSuffix(n, ".BucketHandle).Object") {
 			continue
 		}
-		nm := describe(cs.Common().Args[0])
+		nm := describe(argsOf(cs)[0])
 		want := fmt.Sprintf(`fmt.Sprintf("%%s/%%g.json", [alloc:%s.Week, alloc:%s.X])`, allocName(report), allocName(report))
 		r.Check("C12.name", "handleUpload/object name", gd.Pos(cs.Pos()), nm == want, "the object must be named <Week>/<X>.json from the validated report; got "+nm)
 		bd := describe(cs.Common().Value)
@@ -154,10 +154,10 @@ func runC12(c *Ctx) {
 			case *ssa.Call:
 				switch calleeName(&cl.Call) {
 				case "godev/internal/content.Error":
-					code, isC := intConst(cl.Call.Args[1])
+					code, isC := intConst(argsOf(cl)[1])
 					r.Check("C12.status-classes", fmt.Sprintf("handleUpload/content.Error %d", code), gd.Pos(ret.Pos()), isC && code >= 400 && code < 500, "request-derived failures must answer a constant 4xx; got "+d)
 				case "godev/internal/content.Status":
-					code, isC := intConst(cl.Call.Args[1])
+					code, isC := intConst(argsOf(cl)[1])
 					switch {
 					case isC && code == 200:
 						okAfter := false
@@ -212,15 +212,15 @@ func c12AcceptHeader(c *Ctx, gd *Module, val *ssa.Function, rule string) {
 	namer := func(v ssa.Value) (string, bool) {
 		if e, ok := v.(*ssa.Extract); ok && e.Index == 1 {
 			if cl, ok := e.Tuple.(*ssa.Call); ok && calleeName(&cl.Call) == "time.Parse" {
-				k, _ := constOf(cl.Call.Args[0])
-				_, f, okf := fieldLoad(cl.Call.Args[1])
+				k, _ := constOf(argsOf(cl)[0])
+				_, f, okf := fieldLoad(argsOf(cl)[1])
 				if k == gd_dateOnly(gd) && okf && f == "Week" {
 					return "weekErr", true
 				}
 			}
 		}
 		if cl, ok := v.(*ssa.Call); ok && calleeName(&cl.Call) == "golang.org/x/mod/semver.IsValid" {
-			if _, f, okf := fieldLoad(cl.Call.Args[0]); okf && f == "Config" {
+			if _, f, okf := fieldLoad(argsOf(cl)[0]); okf && f == "Config" {
 				return "semverOK", true
 			}
 		}
@@ -331,14 +331,14 @@ func c12Middleware(c *Ctx, gd *Module) {
 	}
 	var names []string
 	var sizeArg string
-	if sl, ok := chain.Call.Args[0].(*ssa.Slice); ok {
+	if sl, ok := argsOf(chain)[0].(*ssa.Slice); ok {
 		if el, ok := varargElems(sl); ok {
 			for _, e := range el {
 				if cl, ok := strip(e).(*ssa.Call); ok {
 					n := calleeName(&cl.Call)
 					names = append(names, n[strings.LastIndex(n, ".")+1:])
 					if strings.HasSuffix(n, ".RequestSize") {
-						sizeArg = describe(cl.Call.Args[0])
+						sizeArg = describe(argsOf(cl)[0])
 					}
 				}
 			}
@@ -359,10 +359,10 @@ func c12Middleware(c *Ctx, gd *Module) {
 	for _, b := range nh.Blocks {
 		if ret, ok := b.Instrs[len(b.Instrs)-1].(*ssa.Return); ok {
 			if cl, ok := strip(ret.Results[0]).(*ssa.Call); ok && cl.Call.Value == ssa.Value(chain) {
-				muxd := describe(cl.Call.Args[0])
+				muxd := describe(argsOf(cl)[0])
 				for _, cs := range callsIn(nh, "(*net/http.ServeMux).Handle") {
-					pat, _ := constOf(cs.Common().Args[1])
-					if pat == "/upload/" && describe(cs.Common().Args[0]) == muxd && strings.Contains(describe(cs.Common().Args[2]), "handleUpload(") {
+					pat, _ := constOf(argsOf(cs)[1])
+					if pat == "/upload/" && describe(argsOf(cs)[0]) == muxd && strings.Contains(describe(argsOf(cs)[2]), "handleUpload(") {
 						okRet = true
 					}
 				}
@@ -390,7 +390,7 @@ func c12Middleware(c *Ctx, gd *Module) {
 		if strings.HasPrefix(d, "net/http.MaxBytesReader(param:w, param:r.Body, ") && fa.X == ssa.Value(rs.Params[1]) {
 			// the limit is RequestSize's parameter
 			if cl, ok := strip(st.Val).(*ssa.Call); ok {
-				if ld := describe(cl.Call.Args[2]); ld == "param:n" || strings.HasSuffix(ld, ":n") || strings.Contains(ld, "alloc:n#") {
+				if ld := describe(argsOf(cl)[2]); ld == "param:n" || strings.HasSuffix(ld, ":n") || strings.Contains(ld, "alloc:n#") {
 					store = st
 				}
 			}
